@@ -19,10 +19,21 @@ def rekeyLib (lib : Lib) (ms src : P) (mw : Nat) : Lib :=
 /-- a MOVED_TO right after its MOVED_FROM, the source is a key of the path map: the directory and everything
     the library knows below it are re-keyed -/
 theorem libRecord_to_paired_dir (fs : FS) (k : Kern) (lib : Lib) (wd : Nat) (d : Bool) (c : Nat) (n : String) (wp ms : P) (mw : Nat)
-    (hw : lookupW lib.pathForWd wd = some wp) (hkey : lookupP lib.wdForPath ms = some mw) (hrec : lib.recursive = true) :
+    (hw : lookupW lib.pathForWd wd = some wp) (hkey : lookupP lib.wdForPath ms = some mw) (hrec : lib.recursive = true)
+    (hid : d = true → addTreeWatches fs k (rekeyLib (lib.remember c ms) ms (wp ++ [n]) mw) (wp ++ [n]) =
+      (k, rekeyLib (lib.remember c ms) ms (wp ++ [n]) mw)) :
     libRecord fs k (lib.remember c ms) ⟨wd, .movedTo, d, c, some n⟩ =
       some (k, rekeyLib (lib.remember c ms) ms (wp ++ [n]) mw, [⟨wd, .movedTo, d, c, some n, wp ++ [n]⟩]) := by
-  simp [libRecord, Lib.remember, hw, hkey, hrec, rekeyLib, rekeyP, rekeyW]
+  cases d with
+  | false => simp [libRecord, Lib.remember, hw, hkey, hrec, rekeyLib, rekeyP, rekeyW]
+  | true =>
+    have h := hid rfl
+    have e : libRecord fs k (lib.remember c ms) ⟨wd, .movedTo, true, c, some n⟩ =
+        some ((addTreeWatches fs k (rekeyLib (lib.remember c ms) ms (wp ++ [n]) mw) (wp ++ [n])).1,
+              (addTreeWatches fs k (rekeyLib (lib.remember c ms) ms (wp ++ [n]) mw) (wp ++ [n])).2,
+              [⟨wd, .movedTo, true, c, some n, wp ++ [n]⟩]) := by
+      simp [libRecord, Lib.remember, hw, hkey, hrec, rekeyLib, rekeyP, rekeyW]
+    rw [e, h]
 
 theorem rekeyP_nodup (ms src : P) (sub wfp : List (P × Nat)) (h : (wfp.map (·.1)).Nodup) :
     ((rekeyP ms src sub wfp).map (·.1)).Nodup := by
